@@ -52,14 +52,35 @@ def run(c):
     return res
 
 
+LIMIT = float(os.environ.get("C25_CASE_LIMIT", "240"))      # seconds per design (normal designs take well under 10 s incl. compilation)
+
+
 def main():
+    import threading, time
     payload = json.load(sys.stdin)
+    cases = payload["cases"]
     outs = []
-    for c in payload["cases"]:
+    t_start = [time.time()]
+
+    def watchdog():
+        # the property says the generator terminates: a design that runs for LIMIT seconds is reported as such (with the designs
+        # after it marked as not run) instead of hanging the whole check
+        while True:
+            time.sleep(2.0)
+            if time.time() - t_start[0] > LIMIT:
+                res = list(outs) + [{"timeout": LIMIT}] + [{"skipped": True}] * (len(cases) - len(outs) - 1)
+                sys.stdout.write("RESULT " + json.dumps({"outs": res[:len(cases)]}) + "\n")
+                sys.stdout.flush()
+                os._exit(0)
+
+    threading.Thread(target=watchdog, daemon=True).start()
+    for c in cases:
+        t_start[0] = time.time()
         try:
             outs.append(run(c))
         except Exception as e:  # noqa: BLE001
             outs.append({"error": type(e).__name__ + ": " + str(e)[:150]})
+    t_start[0] = time.time() + 1e9
     print("RESULT " + json.dumps({"outs": outs}))
 
 
